@@ -85,3 +85,7 @@ Proof. intros q r order. unfold wf_snapshot, wf_resp, wf_go, nocrlf_status. rewr
 (* hopbyhop_modifier.go: the elements of a Connection value are trimmed before they are deleted *)
 Lemma ob_connection_tokens_trimmed : hbh_trims_connection_token = true.
 Proof. vm_compute. reflexivity. Qed.
+
+(* proxy_conn.go writeResponse, tail: whatever error writing the response returned, the client connection ends (errClose) *)
+Lemma ob_write_error_closes : wr_write_error_closes = true.
+Proof. vm_compute. reflexivity. Qed.
